@@ -19,7 +19,7 @@ class SimLoop:
         self.key = key
         self.mod = mod
         self.spec = '%s:%s.%s' % (mod, cls, meth)
-        self.f = ctx.fn(self.spec)
+        self.f = ctx.fn(self.spec, raw=True)      # the loop models follow assignments along paths: analysed as written
         self.ctx = ctx
         loops = [s for s in self.f.body if isinstance(s, ast.While)]
         if len(loops) != 1:
